@@ -637,12 +637,13 @@ class AFloat:
 
 
 class AAgg:
-    __slots__ = ('ty', 'variant', 'fields')
+    __slots__ = ('ty', 'variant', 'fields', 'origin')
 
-    def __init__(self, ty, fields, variant=0):
+    def __init__(self, ty, fields, variant=0, origin=None):
         self.ty = ty
         self.fields = fields
         self.variant = variant
+        self.origin = origin   # path of the const item this literal table came from (R4)
 
     def __repr__(self):
         return 'Agg<%s#%s>%r' % (self.ty, self.variant, self.fields)
